@@ -198,11 +198,26 @@ def r3(F, R, w, mb):
     reach = w.reach_from(pt, avoid=[head])
     site = "%s @%s" % (w.path, w.loc())
     badc = []
+    cg = F.callgraph()
+    WORK = ("Chain::draw", "Chain::expanded_draw", "Chain::set_position", "ChainStorage::record_sample", "ChainProgress::update", "Model::init_position",
+            "Settings::new_chain", "Sender::send", "SyncSender::send", "Iterator::next", "Receiver::try_recv")
     for bb, t in w.calls():
         if bb in reach:
-            p = strip_generics(t["callee"].get("path", ""))
-            if not p.endswith(("Receiver::recv", "Result::map_err", "Into::into", "From::from")):
-                badc.append(p)
+            c = t["callee"]
+            p = strip_generics(c.get("path", ""))
+            if p.endswith(("Receiver::recv", "Result::map_err", "Into::into", "From::from")):
+                continue
+            # bookkeeping through a local closure (`set_status(Paused)`): allowed when nothing it reaches draws, records, counts or sends
+            if p.endswith(("FnMut::call_mut", "Fn::call", "FnOnce::call_once")) and c.get("closures"):
+                inner = set()
+                for cp in c["closures"]:
+                    for q in cg.reachable([cp]) | {cp}:
+                        qb = F.bodies.get(q)
+                        if qb is not None:
+                            inner |= {strip_generics(t2["callee"].get("path", "")) for _b2, t2 in qb.calls()}
+                if not any(x.endswith(WORK) for x in inner):
+                    continue
+            badc.append(p)
     badw = []
     for bb in reach:
         for st in w.blocks[bb]["stmts"]:
